@@ -9,7 +9,10 @@ from .common import *
 from .core import VERIF, Ctx, Infra, casehash, log
 
 
-ROTATE = ["string", "uint64", "time", "bytes", "float32", "bool", "int64", "uint8", "RPtrOE", "int32", "N2", "float64",
+# wall-clock limit of one TLC run: the machine is shared, a run of one minute has been seen to take fifteen under load
+TLC_LIMIT = 3600
+
+ROTATE = ["string", "uint64", "time", "bytes", "float32", "bool", "int64", "uint8", "RPtrOE", "int32", "N2", "float64", "NI8", "Items", "NSl",
           "int16", "uint", "RMapV", "uint16", "int", "uint32", "RSlice"]
 
 
@@ -46,8 +49,15 @@ def c18(ctx: Ctx):
         "of the boundary table written by TLC, compared exactly with math/big)",
         "values: a covering list per type (every leaf runs through its boundary values, every pointer/slice/map through nil/empty "
         "and non-empty; at most 6 per type), recursive values unfolded to depth 2 - the mutually recursive families to depth 7 with at most 8 values, so that a cycle of length 3 is passed twice; 64-bit int",
-        "reflect cannot create named or method-carrying types: recursion and component names come from the 26 declared types only; "
-        "json:\",string\", yaml tags, arrays, interfaces, non-string map keys, json.RawMessage are outside the universe",
+        "reflect cannot create named or method-carrying types nor unexported fields: recursion, component names, defined non-struct types "
+        "(type NI8 int8, type Items []Item, type Stamp time.Time) and unexported fields come from the 48 declared types only (an unexported field "
+        "only ever holds its zero value); yaml tags, arrays, interfaces, non-string map keys, json.RawMessage, types with marshalling methods "
+        "(a struct embedding time.Time), a slice of a defined uint8 type, a defined map type embedded through reflect.StructOf are outside the universe",
+        "the json \",string\" option is part of the universe: GoTypes!EncQuoted models what encoding/json writes for the quoted kinds (decimal / shortest float text, "
+        "true/false, the JSON text of a string with < escaped) and that the option is ignored elsewhere",
+        "ThrowErrorOnCycle is judged by its documented behaviour: a CycleError exactly for the types that are recursive through the fields the generator considers "
+        "(GoTypes!Recursive); the no-op SchemaCustomizer option set must behave like the default one",
+        "histories: one Generator asked twice (the base type, or the same type, first), the judged call with the same or with a new component map; each call is held to the same contract",
         "the type-name generator option sets (tng*) use one fixed function (prefix \"T_\", checked by TLC against what the harness "
         "installed) and are enumerated over the types that reach a declared struct type",
         "what the generator stores in the component map can depend on map iteration order: the mutually recursive types are generated "
@@ -62,11 +72,13 @@ def c18(ctx: Ctx):
         ctx.tlc("Gen_C18", "Gen_C18_points.cfg", label="F point table only", workers=1)
         ctx.unquote(ctx.spec("points.ndjson"), points)
         # a verdict that may depend on map iteration order inside the generator is replayed repeatedly
-        write_ndjson(cases, [dict(T=v["T"], opt=v["opt"], vals=v["gvs"], reps=50)])
+        case = dict(T=v["T"], opt=v["opt"], vals=v["gvs"], reps=50)
+        if v.get("hist"):
+            case.update(first=v["hist"][0]["first"], share=v["hist"][0]["share"])
+        write_ndjson(cases, [case])
     else:
         # D: the implementation-shaped model of the generator against the contract
         ctx.tlc("MC_C18", "MC_C18_pinned.cfg", expect_violation=True, label="D pinned-model counterexample")
-        ctx.tlc("MC_C18", "MC_C18_%s.cfg" % tier, label="D L2 generator model => L1 (outside listed findings)")
         # F: enumerate types x option sets, with their value lists.  The seed picks which further base
         # gets the deep treatment (full wrapper set at two levels) next to the fixed ones.
         rot = ROTATE[ctx.seed % len(ROTATE)]
@@ -78,10 +90,16 @@ def c18(ctx: Ctx):
         # recursive families with one worker (writes the long lines: concurrent CSVWrite is atomic up to 8 KB only)
         deepdir = os.path.join(ctx.scratch, "spec-deep")
         shutil.copytree(ctx.specdir, deepdir)
-        with cf.ThreadPoolExecutor(max_workers=2) as ex:
-            f1 = ex.submit(ctx.tlc, "Gen_C18", "Gen_C18_run.cfg", label="F generate types x options (BFS, deep base %s)" % rot)
-            f2 = ex.submit(ctx.tlc, "Gen_C18", "Gen_C18_run_deep.cfg", workers=1, cwd=deepdir,
+        mcdir = os.path.join(ctx.scratch, "spec-mc")
+        shutil.copytree(ctx.specdir, mcdir)
+        with cf.ThreadPoolExecutor(max_workers=3) as ex:
+            # D (the generator model against the contract, outside the listed findings) runs next to F
+            f0 = ex.submit(ctx.tlc, "MC_C18", "MC_C18_%s.cfg" % tier, cwd=mcdir, timeout=TLC_LIMIT, workers=max(2, (os.cpu_count() or 4) // 2),
+                           label="D L2 generator model => L1 (outside listed findings)")
+            f1 = ex.submit(ctx.tlc, "Gen_C18", "Gen_C18_run.cfg", timeout=TLC_LIMIT, label="F generate types x options (BFS, deep base %s)" % rot)
+            f2 = ex.submit(ctx.tlc, "Gen_C18", "Gen_C18_run_deep.cfg", workers=1, cwd=deepdir, timeout=TLC_LIMIT,
                            label="F generate mutually recursive families x options (BFS)")
+            f0.result()
             f1.result()
             f2.result()
         n = ctx.unquote(ctx.spec("cases.ndjson"), cases)
@@ -138,14 +156,14 @@ def c18(ctx: Ctx):
         t = o["T"]
         # non-trivial: the type has structure (a pointer, container, struct or declared type) and at least two values
         if t.get("k") in ("ptr", "slice", "map", "struct", "named") and nv >= 2:
-            ctx.nontrivial.add(casehash(dict(T=t, opt=o["opt"])))
+            ctx.nontrivial.add(casehash(dict(T=t, opt=o["opt"], first=o.get("first"), share=o.get("share"))))
         if rng.random() < 6.0 / 5000:
             ctx.samples.append(dict(T=t, opt=o["opt"], S=o.get("S"), json=[v.get("json") for v in o.get("vals", [])][:2]))
     ctx.rule = ("cases = every (Go type, option set) reachable in spec/Gen_C18.tla within (W, WS, Deep) - a base kind or declared "
-                "(recursive) struct type wrapped up to W times by pointer/slice/map/16 struct forms (quick: +1 seed-chosen deep base; thorough: + deeper types sampled with -simulate) - each with the covering value list "
+                "type (struct, defined non-struct type, recursive family) wrapped up to W times by pointer/slice/map/19 struct forms, with a history of the Generator (none / base or same type generated before, same or new map) (quick: +1 seed-chosen deep base; thorough: + deeper types sampled with -simulate) - each with the covering value list "
                 "GoVals(T); evaluations counts (type, options, value, input form) validations against the real generated schema; "
                 "non-trivial = distinct (type, options) whose type is composite and has at least two values that do not encode as null")
     ctx.extra["generator_runs"] = runs     # generations with fresh generators (identical observations share a log line)
     # one TLC process per core in quick (a single round), three rounds in thorough
     per = nlines // 16 + 1 if nlines < 16000 else nlines // 48 + 1
-    ctx.validate("Trace_C18", "Trace_C18.cfg", logp, chunk_lines=per)
+    ctx.validate("Trace_C18", "Trace_C18.cfg", logp, chunk_lines=per, timeout=TLC_LIMIT)
